@@ -15,7 +15,7 @@ use serde_json::{json, Value};
 use std::collections::{BTreeMap, BTreeSet};
 use std::path::{Path, PathBuf};
 
-type RS = Vec<(PathBuf, PathBuf, CovResult)>;
+pub(crate) type RS = Vec<(PathBuf, PathBuf, CovResult)>;
 
 pub const KNOWN_BRANCH: &str = "C03-cobertura-branch-without-line";
 
@@ -112,7 +112,7 @@ fn gen_cov(rng: &mut Rng) -> CovResult {
     c
 }
 
-fn gen_set(rng: &mut Rng) -> RS {
+pub(crate) fn gen_set(rng: &mut Rng) -> RS {
     let k = match rng.below(10) {
         0 => 0,
         1..=5 => 1,
@@ -132,12 +132,12 @@ fn gen_set(rng: &mut Rng) -> RS {
     out
 }
 
-fn shown(rs: &RS) -> String {
+pub(crate) fn shown(rs: &RS) -> String {
     let v: Vec<(String, CovResult)> = rs.iter().map(|r| (r.1.to_str().unwrap().to_string(), r.2.clone())).collect();
     show_results_ordered(&v)
 }
 
-fn parse_shown(s: &str) -> RS {
+pub(crate) fn parse_shown(s: &str) -> RS {
     s.split(' ')
         .filter(|e| e.starts_with('K'))
         .map(|e| {
@@ -150,12 +150,12 @@ fn parse_shown(s: &str) -> RS {
 
 // ---- generic XML tree ------------------------------------------------------------------------
 #[derive(Clone, Debug, PartialEq)]
-enum X {
+pub(crate) enum X {
     E { tag: String, attrs: Vec<(String, String)>, kids: Vec<X> },
     T(String),
 }
 
-fn parse_xml(text: &str) -> Result<X, String> {
+pub(crate) fn parse_xml(text: &str) -> Result<X, String> {
     let mut rd = quick_xml::Reader::from_str(text);
     // stack of open elements
     let mut stack: Vec<(String, Vec<(String, String)>, Vec<X>)> = vec![];
@@ -222,7 +222,7 @@ fn parse_xml(text: &str) -> Result<X, String> {
 
 const MASKED: &[&str] = &["line-rate", "branch-rate", "timestamp"];
 
-fn attr<'a>(x: &'a X, k: &str) -> Option<&'a str> {
+pub(crate) fn attr<'a>(x: &'a X, k: &str) -> Option<&'a str> {
     match x {
         X::E { attrs, .. } => attrs.iter().find(|a| a.0 == k).map(|a| a.1.as_str()),
         _ => None,
@@ -677,6 +677,7 @@ struct Obs {
 }
 
 fn observe(rs: &RS, src: Option<&str>, out: &Path) -> Obs {
+    let _ = std::fs::create_dir_all(out); // another run of this binary may have wiped the work directory
     let read = |p: &Path| std::fs::read_to_string(p).unwrap_or_default();
     let will_panic = rs.iter().any(|r| r.2.lines.keys().last() == Some(&u32::MAX));
     let mut o = Obs { cob: [String::new(), String::new()], ade: String::new(), oracle: vec![] };
@@ -871,6 +872,7 @@ fn demangle_stream(rep: &mut Report, rng: &mut Rng) {
         }
         rep.case(&format!("demangle {}", shown(&rs)), rs.iter().any(|r| r.2.functions.keys().any(|n| n.starts_with("_Z"))));
         rep.count("demangle.sets");
+        let _ = std::fs::create_dir_all(&out);
         let p = out.join("dm.xml");
         let ok = guarded(|| output_cobertura(None, &rs, Some(&p), true, false)).is_ok();
         let doc = if ok { parse_xml(&std::fs::read_to_string(&p).unwrap_or_default()).and_then(|x| typed_doc(&x)) } else { Err("writer panicked".into()) };
@@ -1064,6 +1066,9 @@ pub fn run(rep: &mut Report) {
 
 pub fn replay(rep: &mut Report, case: &Value) {
     let op = case["op"].as_str().unwrap_or("");
+    if op.starts_with("c03.cobbytes") {
+        return crate::cobbytes::replay(rep, case);
+    }
     if op == "c03.cob.stem" {
         let p = case["path"].as_str().unwrap_or("");
         let std_stem = Path::new(p).file_stem().map(|s| s.to_str().unwrap().to_string()).unwrap_or_default();
